@@ -10,7 +10,7 @@ from dst import runner
 
 # property -> list of (engine, profile, quick runs, thorough runs)
 PLANS = {
-    "C20": [("D", "default", 600, 12000)],
+    "C20": [("D", "default", 600, 60000)],
     "C16": [("A", "rsa", 90, 1800), ("A", "ec", 40, 600),
             ("A", "ecdsa", 32, 500)],
     "C17": [("A", "rsa", 90, 1800), ("A", "ec", 40, 600),
